@@ -1135,3 +1135,23 @@ Proof.
   vm_compute. repeat split.
 Qed.
 End C02_translated_quit_all.
+
+(* the `a` loop of the C text against the model of round i/j.  `bad` = the paths the environment can never save to (the empty path of a
+   buffer without a name: open("") fails, whatever the memory); a model table describes the C table (tab_rel: the same slots occupied, a
+   buffer without a name sits in a slot whose path is `bad`).  For the C text: if the loop ends normally -- xquit is then stored --, every
+   buffer of the model table has a name, the model's loop DirtyAllDefs.quit_n exits too, every buffer's file holds its text and the texts are
+   the ones before *)
+Section C02_translated_quit_all_model.
+Import CLite CLiteProps GenCFuncs CLiteTac CLiteExt TrLbufBase TrLbuf TrBufs TrQuit TrQuitAll.
+Theorem C02_tr_quit_all_exit_sound : forall ext cb cmd d fuel (bad : val -> Prop) t m t' m' sv bang tab,
+  (forall args mm r m2, bad (nth 3 args VUndef) -> ext X_lbuf_save args mm = Ok (r, m2) -> is_null r = false) ->
+  length t = 16%nat -> length tab = 16%nat -> tab_rel bad t 0 tab -> Forall NInv (noccupied tab) ->
+  arun ext cb cmd d fuel 16 0 t m [] (ADone t' m' sv) ->
+  Forall (fun f => nname f <> None) (noccupied tab) /\
+  snd (fst (fst (quit_n true bang [] tab [] []))) = true /\
+  let tm := fst (fst (fst (quit_n true bang [] tab [] []))) in
+  Forall (fun f => ln (lb (nb f)) = disk (nb f)) (noccupied tm) /\
+  map (fun f => ln (lb (nb f))) (noccupied tm) = map (fun f => ln (lb (nb f))) (noccupied tab).
+Proof. exact tr_quit_all_exit_sound. Qed.
+Print Assumptions C02_tr_quit_all_exit_sound.
+End C02_translated_quit_all_model.
